@@ -271,8 +271,7 @@ theorem xqCheckPassword_frame (c : Ctx) (cli : XqCli) (pw : Bytes) : Frame c (xq
   · exact Frame.refl c
   · dsimp only
     refine Frame.trans ?_ (xqCheck_frame true _)
-    repeat' split
-    all_goals simp [Frame, updReq]
+    simp [Frame, updReq]
 
 theorem xqMoreLoop_frame (pw : Bytes) (is : List Nat) (c : Ctx) (cli : XqCli) : Frame c (xqMoreLoop pw is c cli).1 := by
   induction is generalizing c cli with
